@@ -374,26 +374,30 @@ def check(ctx):
     for c in dv.device_classes(P):
         for k in c.mro:
             for nm, fn in k.methods.items():
-                loops = [l for l in ast.walk(fn) if isinstance(l, ast.For) and isinstance(l.target, ast.Name) and any(
-                    isinstance(x, ast.Call) and call_attr(x) == 'give_part' and isinstance(x.func.value, ast.Name) and x.func.value.id == l.target.id for x in ast.walk(l))]
-                if not loops or P.lookup(c, nm) is None or P.lookup(c, nm)[2] is not fn or (k.qual, nm) in seen12:
+                # candidate methods: a loop -- spelled as a for statement or as any()/all() over a generator -- that offers the part to its loop variable
+                offers_in_loop = any(isinstance(l, (ast.For, ast.GeneratorExp)) and any(
+                    isinstance(x, ast.Call) and call_attr(x) == 'give_part' and isinstance(x.func, ast.Attribute) and isinstance(x.func.value, ast.Name) for x in ast.walk(l))
+                    for l in ast.walk(fn))
+                if not offers_in_loop or P.lookup(c, nm) is None or P.lookup(c, nm)[2] is not fn or (k.qual, nm) in seen12:
                     continue
                 seen12.add((k.qual, nm))
                 g = ctx.graph(c, nm)
-                for lp in loops:
-                    heads = [n for n in g.nodes.values() if n.kind == 'for' and n.ast is lp]
-                    for h in heads:
-                        o.count()
-                        offers = {n.id for n in g.nodes.values() if n.frame is h.frame and any(
-                            call_attr(x) == 'give_part' and isinstance(x.func, ast.Attribute) and isinstance(x.func.value, ast.Name) and x.func.value.id == lp.target.id
-                            for x in ([n.ast] if n.kind == 'cond' and isinstance(n.ast, ast.Call) else calls_at(g, n)))}
-                        body_starts = [m for l, m in g.succ[h.id] if l == 'T']
-                        skipped = h.id in g.reach(body_starts, avoid=frozenset(offers), follow=lambda l: l != 'exc')
-                        if not offers or skipped:
-                            o.fail(P, f'{k.name}.{nm}', lp, 'an iteration of the hand-over loop can go on to the next candidate without offering the part to this one: '
-                                   'a downstream that would accept the part is never asked', node=h)
-                        else:
-                            o.witness((k.name, nm))
+                for h in [n for n in g.nodes.values() if n.kind == 'for' and n.frame is g.top and isinstance(n.ast.target, ast.Name)]:
+                    v = h.ast.target.id
+                    offers = {n.id for n in g.nodes.values() if n.frame is h.frame and any(
+                        call_attr(x) == 'give_part' and isinstance(x.func, ast.Attribute) and isinstance(x.func.value, ast.Name) and x.func.value.id == v
+                        for x in ([n.ast] if n.kind == 'cond' and isinstance(n.ast, ast.Call) else calls_at(g, n)))}
+                    body_starts = [m for l, m in g.succ[h.id] if l == 'T']
+                    in_body = g.reach(body_starts, avoid=frozenset({h.id}), follow=lambda l: l != 'exc')
+                    if not (offers & in_body):
+                        continue            # another loop of the method
+                    o.count()
+                    skipped = h.id in g.reach(body_starts, avoid=frozenset(offers), follow=lambda l: l != 'exc')
+                    if skipped:
+                        o.fail(P, f'{k.name}.{nm}', h.ast, 'an iteration of the hand-over loop can go on to the next candidate without offering the part to this one: '
+                               'a downstream that would accept the part is never asked', node=h)
+                    else:
+                        o.witness((k.name, nm))
     o.require(len(o.nontrivial) >= 3, 'fewer than 3 hand-over loops found')
 
     # ---- C03.11 restore ---------------------------------------------------------------------------------------
